@@ -21,7 +21,8 @@ BUILD = os.path.join(VERIF, ".build")
 LEAN = os.path.join(VERIF, "lean")
 SIMMPI = os.path.join(VERIF, "simmpi")
 HARNESS = os.path.join(VERIF, "harness")
-EVID = os.path.join(VERIF, "evidence")
+# evidence of the unchanged tree lives in <verif>/evidence; runs against a scratch copy (YGM_REPO) can be redirected
+EVID = os.environ.get("YGM_VERIF_EVIDENCE_DIR") or os.path.join(VERIF, "evidence")
 REPLAYS = os.path.join(EVID, "replays")
 HOOK_DEFINE = "YGM_VERIF_HOOKS"
 ALLOWED_AXIOMS = {"propext", "Classical.choice", "Quot.sound"}
